@@ -27,6 +27,7 @@ type PackStep struct {
 	Src    string  `json:"src,omitempty"` // spelling; "" = <W>/src
 	Cwd    string  `json:"cwd,omitempty"` // W-relative directory to chdir into ("" = /)
 	Unpack bool    `json:"unpack,omitempty"`
+	Allow3 bool    `json:"allow3,omitempty"` // three AllowSymlinkTarget options (spare slice capacity on the Packer)
 	Name   string  `json:"name,omitempty"`
 }
 
@@ -86,6 +87,9 @@ func newPackerFor(st PackStep) *slug.Packer {
 	}
 	if st.Deref {
 		opts = append(opts, slug.DereferenceSymlinks())
+	}
+	if st.Allow3 {
+		opts = append(opts, slug.AllowSymlinkTarget("/nonexistent-verif/one"), slug.AllowSymlinkTarget("/nonexistent-verif/two"), slug.AllowSymlinkTarget("/nonexistent-verif/three"))
 	}
 	p, err := slug.NewPacker(opts...)
 	if err != nil {
@@ -173,7 +177,8 @@ func c16Trees() map[string][]TNode {
 
 // nodes that exist around src for the spelling variants
 func c16Around() []TNode {
-	return []TNode{{Path: "lnabs", Kind: "link", Target: "<W>/src"}, {Path: "lnrel", Kind: "link", Target: "src"}, {Path: "ln2", Kind: "link", Target: "lnabs"}, {Path: "x/lnup", Kind: "link", Target: "../src"}, {Path: "ln3", Kind: "link", Target: "x/lnup"}}
+	return []TNode{{Path: "x/deep", Kind: "dir"}, {Path: "hop", Kind: "link", Target: "x/deep"}, {Path: "lnhop", Kind: "link", Target: "hop/../../src"},
+		{Path: "lnabs", Kind: "link", Target: "<W>/src"}, {Path: "lnrel", Kind: "link", Target: "src"}, {Path: "ln2", Kind: "link", Target: "lnabs"}, {Path: "x/lnup", Kind: "link", Target: "../src"}, {Path: "ln3", Kind: "link", Target: "x/lnup"}}
 }
 
 func RunC16(tier string) int {
@@ -194,7 +199,7 @@ func RunC16(tier string) int {
 			{"src", "."}, {"./src", "."}, {".", "src"}, {"../src", "x"}, {"./", "src"}, {"../src/", "x"},
 			{"<W>/lnabs", ""}, {"<W>/lnrel", ""}, {"<W>/ln2", ""}, {"<W>/ln3", ""}, {"<W>/x/lnup", ""},
 			{"lnrel", "."}, {"lnabs", "."}, {"../lnrel", "x"}, {"<W>/lnrel", "x"}, {"<W>/lnrel", "src"}, {"<W>/lnabs/", ""}, {"ln2", "."}, {"lnup", "x"},
-			{"<W>/src", "src"}, {"<W>/src", "x"}, {"<W>/src", "."},
+			{"<W>/src", "src"}, {"<W>/src", "x"}, {"<W>/src", "."}, {"<W>/lnhop", ""}, {"lnhop", "."}, {"../lnhop", "x"},
 		}
 		pool := core.NewPool(0)
 		type job struct {
